@@ -1,6 +1,7 @@
 """In-process LLUDP proxy world: real SessionManager + InterceptingLLUDPProxyProtocol + SOCKS5UDPTransport over a
 recording fake socket.  Shared by C06 and C07."""
 import asyncio
+import os
 import socket
 import struct
 
@@ -13,13 +14,16 @@ from hippolyzer.lib.proxy.settings import ProxySettings
 from hippolyzer.lib.proxy.transport import SOCKS5UDPTransport
 
 _LOOP = None
+_LOOP_PID = None
 
 
 def ensure_loop():
-    global _LOOP
-    if _LOOP is None or _LOOP.is_closed():
+    """one private event loop per process (a loop inherited over fork() shares its selector with the parent)"""
+    global _LOOP, _LOOP_PID
+    if _LOOP is None or _LOOP.is_closed() or _LOOP_PID != os.getpid():
         _LOOP = asyncio.new_event_loop()
-        asyncio.set_event_loop(_LOOP)
+        _LOOP_PID = os.getpid()
+    asyncio.set_event_loop(_LOOP)
     return _LOOP
 
 
